@@ -16,7 +16,7 @@ func init() {
 		ID: "C12", Run: runC12, QuickRuns: 200000, ThoroughRuns: 8000000,
 		Rule:       "Each run: 1..6 exchanges between a writer peer (tape-chosen among the in-place, append and stream message-begin writers; method names empty..long with arbitrary bytes, any type 0..65535, any seq id) and a reader peer (buffer reader and stream reader) joined by the fault transport: per-exchange fragmentation, truncation at any cut point, corruption of the first word (version marker). Oracle: reference envelope codec on the delivered bytes; by-product: MarshalFastMsg/UnmarshalFastMsg round trip incl. the EXCEPTION branch.",
 		Components: realComponents,
-		Probes:     []string{"env.ok", "env.truncated", "env.bad_version", "exception_branch", "name_longer_than_buffer"},
+		Probes:     []string{"env.ok", "env.truncated", "env.bad_version", "exception_branch", "name_longer_than_buffer", "retry_after_failed_write", "name_of_a_megabyte"},
 	})
 }
 
@@ -31,19 +31,28 @@ func protoTypeID(err error) (int32, bool) {
 func runC12(c *sim.Ctx) {
 	cfg := c.Cfg
 	c.SetupAlloc(allocCfg(cfg, false))
+	thrift.SetSpanCache(cfg.Chance(1, 2))
+	defer thrift.SetSpanCache(false)
 	st := c.Tape.S("ops")
 	n := 1 + cfg.Choose(6)
 	for k := 0; k < n; k++ {
 		c.Ops++
 		nameLen := []int{4, 0, 1, 20, 300, 4090, 5000, 20000}[st.Pick(6, 2, 2, 4, 2, 1, 1, 1)]
-		if nameLen > 0 && st.Chance(1, 2) {
+		if st.Chance(1, 400) {
+			nameLen = []int{1 << 20, 1<<20 + 1, 3 << 20}[st.Choose(3)] // no size is special for a method name
+			c.Count("probe.name_of_a_megabyte")
+		}
+		if nameLen > 0 && nameLen < 1<<20 && st.Chance(1, 2) {
 			nameLen = st.Choose(nameLen + 1)
 		}
 		if nameLen > 4096 {
 			c.Count("probe.name_longer_than_buffer")
 		}
 		name := make([]byte, nameLen)
-		for i := range name {
+		if nameLen > 600 {
+			sim.FillKeyed(name, uint64(c.Index)*7+uint64(k), 0)
+		}
+		for i := 0; i < len(name) && nameLen <= 600; i++ {
 			name[i] = st.Byte()
 			if st.Chance(1, 2) {
 				name[i] = 'A' + name[i]%26
@@ -80,6 +89,26 @@ func runC12(c *sim.Ctx) {
 			c.GuardNoOOM(site, func() { out = B.AppendMessageBegin(prefix, string(name), mtype, seq) })
 			sent = out[3:]
 		case 2:
+			if st.Chance(1, 5) {
+				// the production retry pattern: the first attempt goes to a connection that has
+				// already failed (the write returns the sticky error), the pooled stream writer is
+				// recycled, and the same header is written again on a fresh connection
+				bad := sim.NewSink(c, "bad")
+				bad.FailAt, bad.Err = 1, sim.ErrCustom
+				bdw := bufiox.NewDefaultWriter(bad)
+				if b, err := bdw.Malloc(1); err == nil {
+					b[0] = 0
+				}
+				_ = bdw.Flush() // fails: the writer is now in its error state
+				bbw := thrift.NewBufferWriter(bdw)
+				var err error
+				c.GuardNoOOM(site, func() { err = bbw.WriteMessageBegin(string(name), mtype, seq) })
+				if err == nil {
+					c.Fail("ENVELOPE_WRITE", site, sim.F{"failed_writer": true}, "WriteMessageBegin on a writer whose sink has failed returned nil")
+				}
+				bbw.Recycle()
+				c.Count("probe.retry_after_failed_write")
+			}
 			sink := sim.NewSink(c, "w")
 			dw := bufiox.NewDefaultWriter(sink)
 			if st.Chance(1, 2) {
